@@ -21,9 +21,25 @@ type strCase struct {
 	Write      []int    `json:"write_widths"`
 	Reads      [][]int  `json:"read_widths"`
 	ReadBytesP int      `json:"readbytes_prefix_bits"` // ReadBytes variant: Read(p) first (0 = aligned), -1 = skip
+	// Write widths: a negative entry -n is a WriteRbspTrailingBits call that
+	// occupies n bits of the RBSP (a 1 and n-1 zeros); it is read back as Read(n).
+	// ToEnd: additionally read to the physical end of the stream through
+	// MoreRbspData / ReadRbspTrailingBits (from the last 1 bit of the RBSP).
+	ToEnd bool `json:"to_end,omitempty"`
 }
 
-var chunkNames = []string{"w8", "w1", "w3-5", "w12", "w32", "prefix", "random"}
+var chunkNames = []string{"w8", "w1", "w3-5", "w12", "w32", "prefix", "random", "trail"}
+
+func absWidths(w []int) []int {
+	out := make([]int, len(w))
+	for i, n := range w {
+		if n < 0 {
+			n = -n
+		}
+		out[i] = n
+	}
+	return out
+}
 
 // fixedWidths cuts nbits into calls of the given repeating pattern.
 func fixedWidths(nbits int, pattern ...int) []int {
@@ -144,6 +160,7 @@ func buildStrCase(r *runner.Rand, data []byte, ci int, serial int) *strCase {
 		sc.Write = fixedWidths(nb, 8)
 		sc.Reads = [][]int{sc.Write, fixedWidths(nb, 5, 3), fixedWidths(nb, 32)}
 		sc.ReadBytesP = 0
+		sc.ToEnd = true
 	case 1:
 		sc.Write = fixedWidths(nb, 1)
 		sc.Reads = [][]int{sc.Write, fixedWidths(nb, 8)}
@@ -179,9 +196,38 @@ func buildStrCase(r *runner.Rand, data []byte, ci int, serial int) *strCase {
 		sc.Write = append(sc.Write, 8-p)
 		sc.Reads = [][]int{sc.Write, fixedWidths(8*len(rbsp), 8)}
 		sc.ReadBytesP = p
+		sc.ToEnd = true
 	case 6:
 		sc.Write = randomWidths(r, nb)
 		sc.Reads = [][]int{sc.Write, randomWidths(r, nb)}
+	case 7:
+		// the writer is used further after WriteRbspTrailingBits: p prefix bits
+		// (p = 0: the call is byte aligned), the first k data bytes, the trailing
+		// bits (8-p bits: a 1 and zeros to the byte boundary), the other data bytes
+		p := serial % 8
+		k := (serial / 8) % (len(data) + 1)
+		ones := (serial/8/(len(data)+1))%2 == 1
+		w := &bitw.W{}
+		if p > 0 {
+			if ones {
+				w.Put(1<<uint(p)-1, p)
+			} else {
+				w.Put(0, p)
+			}
+			sc.Write = append(sc.Write, p)
+		}
+		w.PutBytes(data[:k])
+		sc.Write = append(sc.Write, fixedWidths(8*k, 8)...)
+		w.TrailingBits()
+		sc.Write = append(sc.Write, -(8 - p))
+		w.PutBytes(data[k:])
+		sc.Write = append(sc.Write, fixedWidths(8*(len(data)-k), 8)...)
+		rbsp = w.Bytes()
+		sc.Reads = [][]int{absWidths(sc.Write), fixedWidths(8*len(rbsp), 8)}
+		if p == 0 {
+			sc.ReadBytesP = 0
+		}
+		sc.ToEnd = true
 	}
 	sc.RBSP = rbsp
 	return sc
@@ -263,7 +309,12 @@ func checkString(c *runner.Ctx, sc *strCase) bool {
 		w := bits.NewEBSPWriter(&buf)
 		ref := bitw.NewR(rbsp)
 		for _, n := range sc.Write {
-			w.Write(uint(ref.Get(n)), n)
+			if n < 0 {
+				ref.Get(-n)
+				w.WriteRbspTrailingBits()
+			} else {
+				w.Write(uint(ref.Get(n)), n)
+			}
 			if got := int(w.NrBitsInBuffer()); got != ref.Pos()%8 && nbuf == "" {
 				nbuf = fmt.Sprintf("after %d bits NrBitsInBuffer() = %d, want %d", ref.Pos(), got, ref.Pos()%8)
 			}
@@ -289,11 +340,44 @@ func checkString(c *runner.Ctx, sc *strCase) bool {
 	}
 
 	// ---- read (from the reference-escaped stream, so that a writer defect
-	// does not mask or fake a reader defect)
+	// does not mask or fake a reader defect). When the stream ends in a
+	// cabac_zero_word it is read a second time in the form a complete NAL unit
+	// has: with the final 03 of 7.4.1 appended (the library's writer never
+	// produces that form, its reader must accept it).
 	esc := bitw.Escape(rbsp)
 	escIdx := bitw.EscapedIndex(rbsp)
 	c.Count("enum_escapes_in_reference_streams", int64(len(esc)-len(rbsp)))
-	for ri, widths := range sc.Reads {
+	if !readString(c, sc, rbsp, esc, escIdx, false, wit) {
+		good = false
+	}
+	if escF, appended := bitw.EscapeFinal(rbsp); appended {
+		c.Count("enum_streams_read_with_final_03", 1)
+		if !readString(c, sc, rbsp, escF, escIdx, true, wit) {
+			good = false
+		}
+	}
+	return good
+}
+
+// checkEndCounters: after a call that ran into the end of the stream (byte
+// aligned, nothing pending) every byte of the escaped stream has been consumed.
+func checkEndCounters(r counters, streamLen int) string {
+	if gb, gn := r.NrBytesRead(), r.NrBitsRead(); gb != streamLen || gn != 8*streamLen {
+		return fmt.Sprintf("after reading to the end of the %d byte escaped stream: NrBytesRead=%d NrBitsRead=%d, want %d %d", streamLen, gb, gn, streamLen, 8*streamLen)
+	}
+	return ""
+}
+
+// readString reads one escaped form (esc) of sc.RBSP through the EBSPReader.
+func readString(c *runner.Ctx, sc *strCase, rbsp, esc []byte, escIdx []int, final03 bool, wit interface{}) bool {
+	good := true
+	form := ""
+	reads := sc.Reads
+	if final03 {
+		form = "stream with final 03: "
+		reads = reads[:1]
+	}
+	for ri, widths := range reads {
 		mode := "mirrored"
 		if ri > 0 {
 			mode = "mismatched"
@@ -326,15 +410,19 @@ func checkString(c *runner.Ctx, sc *strCase) bool {
 			v := r.Read(1)
 			if r.AccError() == nil {
 				key, msg = "no-error-past-end", fmt.Sprintf("Read(1) past the end returned %d with nil AccError", v)
+				return
 			} else if r.AccError() != io.EOF {
 				c.Seen("ebspreader_past_end_error", r.AccError().Error())
 			}
+			if m := checkEndCounters(r, len(esc)); m != "" {
+				key, msg = "counters-at-end", "Read(1) hit the end: "+m+fmt.Sprintf(" (escaped stream %x)", esc)
+			}
 		})
 		if pi != nil {
-			c.Violation(runner.PanicKey("ebsp/reader/panic", pi), "EBSPReader.Read panicked: "+pi.Value, wit)
+			c.Violation(runner.PanicKey("ebsp/reader/panic", pi), form+"EBSPReader.Read panicked: "+pi.Value, wit)
 			good = false
 		} else if key != "" {
-			c.Violation("ebsp/reader/"+key, mode+" read widths: "+msg, wit)
+			c.Violation("ebsp/reader/"+key, form+mode+" read widths: "+msg, wit)
 			good = false
 		}
 	}
@@ -366,13 +454,78 @@ func checkString(c *runner.Ctx, sc *strCase) bool {
 			}
 			if m := checkCounters(r, ref.Pos(), escIdx); m != "" {
 				key, msg = "readbytes-counters", m
+				return
+			}
+			if p == 0 {
+				// one byte more than the stream holds: documented nil + accumulated error
+				more := r.ReadBytes(1)
+				if more != nil || r.AccError() == nil {
+					key, msg = "readbytes-no-error-past-end", fmt.Sprintf("ReadBytes(1) past the end returned %x, AccError %v", more, r.AccError())
+					return
+				}
+				if m := checkEndCounters(r, len(esc)); m != "" {
+					key, msg = "readbytes-counters-at-end", "ReadBytes(1) hit the end: "+m+fmt.Sprintf(" (escaped stream %x)", esc)
+				}
 			}
 		})
 		if pi != nil {
-			c.Violation(runner.PanicKey("ebsp/reader/panic", pi), "EBSPReader.ReadBytes panicked: "+pi.Value, wit)
+			c.Violation(runner.PanicKey("ebsp/reader/panic", pi), form+"EBSPReader.ReadBytes panicked: "+pi.Value, wit)
 			good = false
 		} else if key != "" {
-			c.Violation("ebsp/reader/"+key, msg, wit)
+			c.Violation("ebsp/reader/"+key, form+msg, wit)
+			good = false
+		}
+	}
+	if T := lastOneBit(rbsp); sc.ToEnd && T >= 0 {
+		// the way the parsers finish a NAL unit: up to the last 1 bit, then
+		// MoreRbspData (false) and ReadRbspTrailingBits, both of which scan to the
+		// physical end of the stream and clear the EOF
+		var msg, key string
+		pi := c.Guard(func() {
+			r := bits.NewEBSPReader(bytes.NewReader(esc))
+			ref := bitw.NewR(rbsp)
+			for ref.Pos() < T {
+				n := T - ref.Pos()
+				if n > 32 {
+					n = 32
+				}
+				if got, want := r.Read(n), ref.Get(n); uint64(got) != want || r.AccError() != nil {
+					key, msg = "value", fmt.Sprintf("Read(%d) returned %#x (err %v), written %#x", n, got, r.AccError(), want)
+					return
+				}
+			}
+			more, err := r.MoreRbspData()
+			if err != nil || r.AccError() != nil || more {
+				key, msg = "more-rbsp-data", fmt.Sprintf("MoreRbspData at the last 1 bit (bit %d) = %v, %v / AccError %v (escaped stream %x)", T, more, err, r.AccError(), esc)
+				return
+			}
+			if m := checkCounters(r, T, escIdx); m != "" {
+				key, msg = "more-rbsp-data-moved-position", m+fmt.Sprintf(" (escaped stream %x)", esc)
+				return
+			}
+			if err := r.ReadRbspTrailingBits(); err != nil || r.AccError() != nil {
+				key, msg = "trailing-bits-rejected", fmt.Sprintf("ReadRbspTrailingBits at the last 1 bit (bit %d): %v / AccError %v (escaped stream %x)", T, err, r.AccError(), esc)
+				return
+			}
+			if m := checkEndCounters(r, len(esc)); m != "" {
+				key, msg = "trailing-bits-counters-at-end", "ReadRbspTrailingBits scanned to the end: "+m+fmt.Sprintf(" (escaped stream %x)", esc)
+				return
+			}
+			r.Read(1)
+			if r.AccError() == nil {
+				key, msg = "no-error-past-end", "Read(1) after ReadRbspTrailingBits left AccError nil"
+				return
+			}
+			if m := checkEndCounters(r, len(esc)); m != "" {
+				key, msg = "counters-at-end", "Read(1) after ReadRbspTrailingBits: "+m+fmt.Sprintf(" (escaped stream %x)", esc)
+			}
+		})
+		c.Count("enum_read_to_end_via_trailing_bits", 1)
+		if pi != nil {
+			c.Violation(runner.PanicKey("ebsp/reader/panic", pi), form+"EBSPReader panicked while finishing the stream: "+pi.Value, wit)
+			good = false
+		} else if key != "" {
+			c.Violation("ebsp/reader/"+key, form+msg, wit)
 			good = false
 		}
 	}
